@@ -7,3 +7,6 @@ import ShkModel.Props.C11
 import ShkModel.Props.C03
 import ShkModel.Props.C06
 import ShkModel.Props.C17
+import ShkModel.Props.C04
+import ShkModel.Props.C05
+import ShkModel.Props.C07
